@@ -68,7 +68,12 @@ REPROS = {
         "err = np.linalg.norm(dense(out) - sla.expm(-1j*H*0.02) @ psi)\n"
         "c = s.copy().canonicalise(); c.evolve_config = s.evolve_config; err2 = np.linalg.norm(dense(c.evolve(mpo, 0.02)) - sla.expm(-1j*H*0.02) @ psi)\n"
         "print('TDVP-PS at full bond dimension: error', err, ' after canonicalise():', err2)\n"
-        "sys.exit(1 if err > 1e-6 else 0)\n",
+        "r = Mps.random(m, 1, 8).canonicalise().canonicalise(); r.ensure_right_canonical()      # to_right=True, qnidx=0\n"
+        "x = Mpo(m, Op(r'b^\\dagger+b', 'v1', 1.0) + Op(r'b^\\dagger b', 'v1', 0.7)) @ r                # non-unitary one-site operator on the LAST site, raw product\n"
+        "x = x.scale(1.0/np.linalg.norm(dense(x))); x.evolve_config = s.evolve_config; x.compress_config = s.compress_config\n"
+        "px = dense(x); err3 = np.linalg.norm(dense(x.evolve(mpo, 0.1)) - sla.expm(-1j*H*0.1) @ px)\n"
+        "print('mu @ psi with psi right-canonical, mu on the last site: error', err3)\n"
+        "sys.exit(1 if (err > 1e-6 or err3 > 1e-6) else 0)\n",
     "tdrk-adaptive-callable-time-offset":
         "import renormalizer\nimport numpy as np, sys\nfrom renormalizer.model import Model, Op, basis as ba\nfrom renormalizer.mps import Mps, Mpo\n"
         "from renormalizer.utils import EvolveConfig, EvolveMethod, CompressConfig, CompressCriteria\n"
@@ -121,6 +126,13 @@ REPROS = {
         "    print('CMF trapz=%s: error of two calls on one input object' % trapz, errs, ' on fresh copies', fresh, ' midpoint flag afterwards', a.evolve_config.tdvp_cmf_midpoint, a.evolve_config.tdvp_cmf_c_trapz)\n"
         "    if errs[1] > 1.5*errs[0] or not a.evolve_config.tdvp_cmf_midpoint or a.evolve_config.tdvp_cmf_c_trapz != trapz: bad.append(trapz)\n"
         "sys.exit(1 if bad else 0)\n",
+    "local-ode-solver-signed-step": PRE +
+        "s = Mps.random(m, 1, 8).canonicalise().canonicalise(); psi = dense(s); t = -0.2; ref = sla.expm(-1j*H*t) @ psi; bad = []\n"
+        "for meth, solver in ((EvolveMethod.tdvp_ps, 'krylov'), (EvolveMethod.tdvp_ps, 'RK45'), (EvolveMethod.tdvp_ps2, 'RK45'), (EvolveMethod.tdvp_vmf, 'krylov'), (EvolveMethod.tdvp_mu_vmf, 'krylov')):\n"
+        "    a = s.copy(); a.evolve_config = EvolveConfig(meth, ivp_solver=solver); a.compress_config = CompressConfig(CompressCriteria.fixed, max_bonddim=64)\n"
+        "    e = np.linalg.norm(dense(a.evolve(mpo, t)) - ref); print(meth.name, solver, 'backward step t = -0.2: distance to exp(-iHt)psi', e)\n"
+        "    if e > 1e-3: bad.append((meth.name, solver, e))\n"
+        "sys.exit(1 if bad else 0)\n",
     "cmf-krylov-solver-dependence": PRE +
         "s = Mps.random(m, 1, 8).canonicalise().canonicalise()\n"
         "outs = []\n"
@@ -149,6 +161,10 @@ def classify(k, rec):
     if k.startswith("gauge/") and k.split("/")[1].startswith(("tdvp_vmf", "tdvp_mu_vmf", "cmf")) and \
             k.split("/")[2] in ("regauged-left-flags", "regauged-right-flags", "added-raw", "operator-applied"):
         return "vmf-cmf-noncanonical-input"
+    if k.startswith("negative/"):
+        return "local-ode-solver-signed-step" if k.split("/")[1].startswith(("ps", "ps2", "tdvp_", "cmf")) else "oracle/" + k
+    if k.startswith("gauge/ps/applied-") or k.startswith("gauge/ps/added-raw"):
+        return "tdvp-ps-noncanonical-input"
     if k.startswith(("reuse/", "exception/reuse/")):
         return "input-object-reuse"
     if k.startswith("gauge/ps/operator-applied"):
@@ -308,20 +324,20 @@ def model_obs(zs, solver):
     for k, (tag, a, b, c) in enumerate(evs):
         d = lambda x: x if solver == "krylov" else "ivp"
         if tag == 0:
-            obs += [["K", d("fwd"), b / c], ["QR"]]
+            obs += [["K", d("fwd"), abs(b / c)], ["QR"]]
             nxt = evs[k + 1] if k + 1 < len(evs) else None
             if nxt is None or nxt[0] != 1:
                 obs.append(["SET", a])              # end site of a half sweep: the evolved tensor is stored
         elif tag == 1:
             obs.append(["SET", a])                  # the isometry is stored on the site
         elif tag == 2:
-            obs.append(["K", d("bwd"), b / c])
+            obs.append(["K", d("bwd"), abs(b / c)])
         elif tag == 3:
             obs.append(["SET", b])                  # the bond matrix is absorbed into site j
         elif tag == 4:
-            obs += [["K", d("fwd"), b / c], ["UPD", [a, a + 1]]]
+            obs += [["K", d("fwd"), abs(b / c)], ["UPD", [a, a + 1]]]
         elif tag == 5:
-            obs += [["K", d("bwd"), b / c], ["SET", a]]
+            obs += [["K", d("bwd"), abs(b / c)], ["SET", a]]
     return obs
 
 
@@ -466,6 +482,8 @@ def run(ctx):
             continue
         runs += res["runs"]
     good = [r for r in runs if r["exc"] is None]
+    ivp_bad = [{k: v for k, v in r.items() if k != "obs"} for r in good
+               if r.get("ivp_calls_checked") and (not r["ivp_span_ok"] or r["ivp_max_err"] > 1e-4)]
     for r in runs:
         if r["exc"] is not None:
             corr_bad.append({"what": "projector-splitting step raised", "run": {k: v for k, v in r.items() if k != "obs"}})
@@ -636,6 +654,8 @@ def run(ctx):
         classes.setdefault("tdrk-adaptive-callable-time-offset", []).extend(td_classes)
     if dim_bad:
         classes.setdefault("oracle/bond-limit/" + dim_bad[0]["kind"], []).extend(dim_bad)
+    if ivp_bad:
+        classes.setdefault("local-ode-solver-signed-step", []).extend(ivp_bad)
     for key, recs in sorted(classes.items()):
         repro = REPROS.get(key)
         found = repro is not None
@@ -647,6 +667,7 @@ def run(ctx):
                 "vmf-overcomplete-singular-overlap": "oracle clause `any gauge, sufficient bond dimension` (exception on an accepted input)",
                 "tdrk-adaptive-callable-time-offset": "theorem C09_tdrk_offset_is_accepted_time / Model.Prop.rk_stages (stage Hamiltonian sampled at c_i*dt + t0) vs the recorded sample times, and the dense fixed-step reference",
                 "vmf-cmf-noncanonical-input": "oracle clause `any gauge, sufficient bond dimension` (mean-field TDVP on a non-canonical representation)",
+                "local-ode-solver-signed-step": "oracle clauses `exp(-iHt) for real t` (t < 0) and `result does not depend on the local integrator`; contract of the local ODE solve (t_span of the requested sign, returns y(t_end))",
                 "input-object-reuse": "oracle clause `the result does not depend on how t is split into successive calls` (one input object re-used; its evolve_config must come back unchanged)",
                 "tdvp-ps-noncanonical-input": "oracle clause `any gauge, sufficient bond dimension` (TDVP-PS inexact at full bond dimension)",
                 "cmf-krylov-solver-dependence": "oracle clause `result does not depend on the local integrator`"}.get(key, "dense oracle: " + key)
